@@ -176,7 +176,7 @@ Definition uses_sequence (u : universe) : bool :=
 
 (* coverage: a class with a field of its own type *)
 Definition uses_recursion (u : universe) : bool :=
-  existsb (fun km => existsb (N.eqb (fst km)) (class_children (snd km))) (u_metas u).
+  existsb (fun km => existsb (N.eqb (fst km)) (class_children u (snd km))) (u_metas u).
 
 (* which clause excludes the case: 1 class factory, 2 wf_model, 3 fits *)
 Definition guard_clauses (k : rt_case) : list N :=
@@ -214,7 +214,12 @@ Fixpoint has_local_qname (v : value) : bool :=
   end.
 Definition binds_default (user : list (option str * str)) : bool :=
   existsb (fun kv => match fst kv with None | Some [] => true | Some _ => false end) user.
-Definition qname_safe (k : rt_case) : bool := negb (has_local_qname (rc_value k) && binds_default (rc_user k)).
+(* an instance of a subclass is announced by xsi:type, whose value is a QName too: the QName of a
+   class without namespace meets the same defect *)
+Definition all_exact (k : rt_case) : bool :=
+  exact_classes (rc_universe k) (S (EventGen.vdepth (rc_value k))) (rc_cls k) (rc_value k).
+Definition qname_safe (k : rt_case) : bool :=
+  negb ((has_local_qname (rc_value k) || negb (all_exact k)) && binds_default (rc_user k)).
 Definition in_guard_q (k : rt_case) : bool := in_guard_w k && qname_safe k.
 
 (* -- correspondence of the stages (every case) *)
@@ -257,5 +262,6 @@ Definition composition (k : rt_case) : Parser.outcome :=
     (pump (expected_of (rc_conv k) (EventGen.generate (rc_ign k) (rc_conv k) (rc_universe k) (rc_value k)))).
 (* (the canonical stream `pump` binds no prefixes: instances without QName values) *)
 Definition composition_agrees (k : rt_case) : bool :=
-  negb (in_guard_w k && noq (rc_value k)) || ParserCorr.outcome_eqb (composition k) (rc_parse k).
+  negb (in_guard_w k && noq (rc_value k) && all_exact k) || ParserCorr.outcome_eqb (composition k) (rc_parse k).
+Definition uses_xsi_type (k : rt_case) : bool := negb (all_exact k).
 Definition uses_qname (k : rt_case) : bool := negb (noq (rc_value k)).
